@@ -48,7 +48,7 @@ for d in sorted(glob.glob(os.path.join(here, "seeded", "C*-m*"))):
         det = "RETIRED: " + meta["retired"] + ((" (earlier: " + det + ")") if det else "")
     rows.append("| %s | %s | %s | %s | %s | %s |" % (name, meta.get("property", name[:3]), esc(meta.get("summary", ""))[:300], esc(meta.get("needs_to_manifest", ""))[:300], conf, esc(det)))
 # ---- per-round summary
-_rounds = [("1-2", ("m1", "m2", "m3", "m4")), ("3", ("m5", "m6")), ("4", ("m7", "m8")), ("5", ("m9", "m10")), ("6 (fresh eyes)", ("m11", "m12")), ("7 (fresh eyes)", ("m13", "m14"))]
+_rounds = [("1-2", ("m1", "m2", "m3", "m4")), ("3", ("m5", "m6")), ("4", ("m7", "m8")), ("5", ("m9", "m10")), ("6 (fresh eyes)", ("m11", "m12")), ("7 (fresh eyes)", ("m13", "m14")), ("8 (fresh eyes, 8 properties, one change each)", ("m15",))]
 _sum = ["| round | seeded changes kept | caught by the quick check as it was when the change arrived | caught now | retired |", "|---|---|---|---|---|"]
 for rn, ms in _rounds:
     tot = first = last = ret = 0
@@ -73,7 +73,7 @@ for rn, ms in _rounds:
 _note = ("Each later round was written against the list of all earlier changes of that property (\"choose a different mechanism and "
          "location\"; from round 5 on also \"where a systematic generator is still likely to be blind\"), which is why the first-run "
          "rate falls from round to round; every miss was answered by widening the generator / oracle for the whole CLASS of the change "
-         "(never by adding the seeded input alone), after which the change and its earlier siblings were re-run. Rounds 6 and 7 are the control experiment: their "
+         "(never by adding the seeded input alone), after which the change and its earlier siblings were re-run. Rounds 6, 7 and 8 are the control experiment: their "
          "authors saw only the property text and the code (like round 1, no list of earlier changes), so their first-run rate estimates how the "
          "strengthened checks fare on fresh, unbiased changes.\n\n")
 seeded = "\n".join(_sum) + "\n\n" + _note + "\n".join(rows)
